@@ -1372,6 +1372,35 @@ def _nd_method(interp, arr, name):
         if arr.ndim < 2:
             return arr
         return NDArr([list(c) for c in zip(*arr.data)])
+    if name == 'transpose':
+        def transpose(*axes):
+            if len(axes) == 1 and isinstance(axes[0], (tuple, list)):
+                axes = tuple(axes[0])
+            shape = arr.shape
+            nd = len(shape)
+            if not axes:
+                axes = tuple(reversed(range(nd)))
+            axes = tuple(_cint(a) for a in axes)
+            if sorted(axes) != list(range(nd)):
+                raise_('ValueError', "axes don't match array")
+
+            def get(idx):
+                d = arr.data
+                for k in idx:
+                    d = d[k]
+                return d
+            new_shape = tuple(shape[a] for a in axes)
+
+            def build(prefix):
+                if len(prefix) == nd:
+                    src = [0] * nd
+                    for pos, a in enumerate(axes):
+                        src[a] = prefix[pos]
+                    return get(src)
+                return [build(prefix + [k])
+                        for k in range(new_shape[len(prefix)])]
+            return NDArr(build([]))
+        return Builtin('transpose', transpose)
     if name == 'tolist':
         return Builtin('tolist', lambda: _copy_data(arr.data))
     if name == 'copy':
